@@ -49,7 +49,7 @@ Definition spec_ok (c : case_t) : bool :=
 
 def run(ctx):
     out, cases, obs, usable, bad = fakes.drive(
-        ctx, "c15", SPEC, ctx.budget(28, 500), ctx.budget(6, 80), ctx.budget(16, 700), RULE,
+        ctx, "c15", SPEC, ctx.budget(28, 300), ctx.budget(6, 50), ctx.budget(16, 768), RULE,
         "a job started before an upstream job succeeded / started twice / was never run")
     return out
 
